@@ -58,7 +58,8 @@ pub enum Req {
     SetupStub,
     /// chain scenario: connect a block that holds channel ch's holder commitment (the monitor asks
     /// the channel for its parameters while the tracker and the monitor state are held); without
-    /// the chain scenario this is a plain AddBlock
+    /// the chain scenario this is a plain AddBlock.  ch >= 2: same for channel ch % 2, but the
+    /// block is delivered streamed
     AddBlockClose { ch: u8 },
 }
 
@@ -115,7 +116,7 @@ fn req_strat_chain() -> impl Strategy<Value = Req> {
         2 => Just(Req::AddBlock),
         4 => Just(Req::SignOnchain),
         4 => Just(Req::SetupStub),
-        6 => ch().prop_map(|ch| Req::AddBlockClose { ch }),
+        6 => (0u8..4).prop_map(|ch| Req::AddBlockClose { ch }),
     ]
 }
 
@@ -380,7 +381,8 @@ fn exec(cx: &Ctx2, r: &Req) -> String {
             let height = tracker.height() + 1;
             let block = make_block(&tracker.tip().0, height, 7, vec![cx.close_txs[ci].clone()]);
             let (txids, outpoints) = tracker.get_all_forward_watches();
-            let proof = make_proof(&block, &tracker.tip().1, height, &txids, &outpoints, false);
+            // ch >= 2: the block is streamed (block_chunk feeds the monitors' push decoders)
+            let proof = make_proof(&block, &tracker.tip().1, height, &txids, &outpoints, *ch >= 2);
             if proof.proof.is_external() {
                 if tracker.block_chunk(block.block_hash(), 0, &serialize(&block)).is_err() {
                     return "err".into();
